@@ -70,7 +70,7 @@ func FamiliesC03(tier string) []world.Family {
 }
 
 func OptionsC03(tier string) Options {
-	o := Options{MaxRetries: 1, SizeVariants: []uint{0, 1}, PrevLERNilToo: true, L2ReorgEpilogue: true}
+	o := Options{MaxRetries: 1, SizeVariants: []uint{0, 1}, PrevLERNilToo: true, L2ReorgEpilogue: true, AttachedChain: true}
 	if tier == "thorough" {
 		o.SizeVariants = []uint{0, 1, 300} // 300 bytes: room for about two bridge exits, no claim
 	}
